@@ -12,8 +12,8 @@ struct StepGraphSpec {
 };
 
 inline const char *stepFamilyName(int f) {
-    static const char *n[] = {"layered", "grid", "hypercube", "complete", "complete_bipartite", "ladder", "ring", "zero_weight_clique", "gnp", "diamond_chain"};
-    return n[f % 10];
+    static const char *n[] = {"layered", "grid", "hypercube", "complete", "complete_bipartite", "ladder", "ring", "zero_weight_clique", "gnp", "diamond_chain", "skip_chain", "convex_dag"};
+    return n[f % 12];
 }
 
 // edge list of a family member; vertices 0..V-1
@@ -21,7 +21,7 @@ inline unsigned buildFamily(const StepGraphSpec &s, std::vector<std::pair<unsign
     es.clear();
     sim::Rng r(s.gseed);
     unsigned V = 0;
-    switch (s.family % 10) {
+    switch (s.family % 12) {
     case 0: { // layered: source, d layers of width w fully connected layer to layer, sink  (w^d shortest paths)
         int w = 2 + s.p1 % 4, d = 2 + s.p2 % 39;
         while ((long)w * d > 160) --d;
@@ -93,6 +93,19 @@ inline unsigned buildFamily(const StepGraphSpec &s, std::vector<std::pair<unsign
                 if (i != j && r.pm(pm)) es.emplace_back(i, j);
         break;
     }
+    case 10: { // chain with skip edges: expensive shortcuts reach a vertex before the cheap multi-hop route does
+        V = 4 + (unsigned)(s.p1 % 60);
+        unsigned K = 2 + (unsigned)(s.p2 % 4);
+        for (unsigned i = 0; i < V; ++i)
+            for (unsigned k = 1; k <= K && i + k < V; ++k) es.emplace_back(i, i + k);
+        break;
+    }
+    case 11: { // complete DAG (forward edges only), convex weights in the weighted searches
+        V = 3 + (unsigned)(s.p1 % 30);
+        for (unsigned i = 0; i < V; ++i)
+            for (unsigned j = i + 1; j < V; ++j) es.emplace_back(i, j);
+        break;
+    }
     default: { // chain of diamonds: 2^d shortest paths with 3d+1 vertices
         int d = 1 + s.p1 % 40;
         V = (unsigned)(3 * d + 1);
@@ -111,7 +124,11 @@ inline unsigned buildFamily(const StepGraphSpec &s, std::vector<std::pair<unsign
 }
 
 inline double stepWeight(unsigned a, unsigned b, uint64_t seed, int family) {
-    if (family % 10 == 7) return 0.0;
+    if (family % 12 == 7) return 0.0;
+    if (family % 12 == 10 || family % 12 == 11) { // convex in the span: every shortcut is worse than the hops it skips
+        double d = a < b ? (double)(b - a) : (double)(a - b);
+        return d * d;
+    }
     static const double w[4] = {0.0, 0.25, 1.0, 3.0};
     uint64_t x = seed ^ ((uint64_t)a * 0x9e3779b97f4a7c15ULL) ^ ((uint64_t)b * 0xc2b2ae3d27d4eb4fULL);
     x ^= x >> 31; x *= 0xbf58476d1ce4e5b9ULL; x ^= x >> 29;
@@ -133,7 +150,7 @@ inline void runStepPlan(const sim::Plan &plan, sim::RunResult &res, Env &env) {
         const sim::Op &op = plan.ops[i];
         if (op.k != "steps") continue;
         StepGraphSpec s;
-        s.family = (int)modn(op.x, 10);
+        s.family = (int)modn(op.x, 12);
         s.p1 = (int)modn(op.a, 1 << 20);
         s.p2 = (int)modn(op.b, 1 << 20);
         const int algo = (int)modn(op.y, 3);
